@@ -207,6 +207,18 @@ def checkTV (oc : Bool) (pre opT outT postT : List String) : Option (List String
       v := (if cls == .panic then "UNSAT C04" else "UNSAT C01") :: "UNSAT C03" :: v
     if cls == .ok && allocs != 0 then v := "UNSAT C18" :: v
     return (v, !pieces.flatten.isEmpty)
+  | ["rte"], [c, n, a, got] =>
+    let got ← unhex? got
+    let cls ← cls? c
+    let _ ← a.toNat?
+    let ns ← if n == "-" then some [] else n.toNat?.map (fun k => [k])
+    let io : Out := { cls := cls, nums := ns }
+    let (b', mo) := stepRTE oc b
+    let mut v : List String := []
+    if !(mo.cls == io.cls && mo.nums == io.nums && mo.bytes == got && b'.obs == ip) then v := "DRIFT" :: v
+    if !Sat_RTE b got io ip then
+      v := (if cls == .panic then "UNSAT C04" else "UNSAT C01") :: "UNSAT C03" :: v
+    return (v, b.len != 0)
   | ["re", ds], [c, _n, a, dest] =>
     let d ← ds.toNat?
     let dest ← unhex? dest
@@ -221,5 +233,23 @@ def checkTV (oc : Bool) (pre opT outT postT : List String) : Option (List String
     if cls == .ok && allocs != 0 then v := "UNSAT C18" :: v
     return (v, b.len != 0 && d != 0)
   | _, _ => none
+
+/-- `TC <N> <mem> <ri> <wi> | clone / copy / clone_from <mem> <ri> <wi> | <obs>`: a copy made through the derived traits
+    is the same stream (C01's "from every constructor ... copies"): same unread bytes, len(), is_empty(), and a state
+    every later call is defined on.  The model is the exact copy; less than an exact copy is drift only. -/
+def checkTC (pre opT postT : List String) : Option (List String × Bool) := do
+  let (mem, ri, wi) ← match pre with
+    | [_n, m, ri, wi] => do pure ((← unhex? m), (← ri.toNat?), (← wi.toNat?))
+    | _ => none
+  let b : Buf := { mem := mem, ri := ri, wi := wi }
+  let _ ← match opT with
+    | ["clone"] | ["copy"] | ["clone_from", _, _, _] => some ()
+    | _ => none
+  if postT == ["X"] then return (["UNSAT C04", "UNSAT C01", "UNSAT C03", "DRIFT"], true)
+  let ip ← obs? postT
+  let mut v : List String := []
+  if b.obs != ip then v := "DRIFT" :: v
+  if !(validObs b ip && ip.rd == b.readable && ip.len == b.len) then v := "UNSAT C01" :: "UNSAT C03" :: v
+  return (v, b.len != 0)
 
 end FBV.DrvT1
